@@ -23,6 +23,7 @@ pub struct T12(pub [u32; 3]);
 pub struct T24(pub [u64; 3]);
 
 #[repr(C, align(16))]
+#[derive(Clone)]
 struct Arena<const N: usize>([u8; N]);
 
 /// (size, align) of the element type names used on case lines
@@ -149,6 +150,7 @@ fn lv_bytes<T: Pod, L: spl_list_view::PodLength>(offset: usize, bytes: &[u8]) ->
     (ro_s, err)
 }
 
+#[derive(Clone)]
 struct Hist {
     t: String,
     l: String,
@@ -259,6 +261,50 @@ fn hist_op<T: Pod, L: spl_list_view::PodLength>(h: &mut Hist, op: &[&str]) -> (S
     (format!("{} buf={}", s, hex(&after)), err)
 }
 
+/// `O multi <op> / <op> / …` (push, remove, sort): the operations run on ONE open `ListViewMut`.  The vector they must
+/// amount to, and every per-step demand, comes from the same steps run one by one (fresh handle each) on a copy; "any
+/// sequence of operations on a list view" includes sequences through one handle, and the bytes are a function of the list.
+fn hist_multi<T: Pod, L: spl_list_view::PodLength>(h: &mut Hist, op: &[&str]) -> (String, Option<String>) {
+    let sz = std::mem::size_of::<T>();
+    let subs: Vec<Vec<&str>> = op[1..].split(|x| *x == "/").map(|x| x.to_vec()).collect();
+    let mut h2 = h.clone();
+    let mut err: Option<String> = None;
+    let mut stepwise: Vec<String> = vec![];
+    for sub in &subs {
+        let (s1, e1) = hist_op::<T, L>(&mut h2, sub);
+        stepwise.push(s1.split(" buf=").next().unwrap().to_string());
+        if err.is_none() { err = e1; }
+    }
+    let (offset, n) = (h.offset, h.n);
+    let arena = &mut h.arena;
+    let r = guarded(|| -> Result<Vec<String>, ProgramError> {
+        let buf = &mut arena.0[offset..offset + n];
+        let mut v: ListViewMut<T, L> = ListView::<T, L>::unpack_mut(buf)?;
+        let mut rs = vec![];
+        for sub in &subs {
+            let one: Result<String, ProgramError> = match sub[0] {
+                "push" => { let x: T = bytemuck::pod_read_unaligned(&unhex(sub[1])); v.push(x).map(|_| "()".to_string()) }
+                "remove" => { let i: usize = sub[1].parse().unwrap(); v.remove(i).map(|x| if sz == 0 { "zst".into() } else { hex(bytemuck::bytes_of(&x)) }) }
+                "sort" => { let m = sub[1].to_string(); v.sort_by(|a, b| cmp_mode(&m, bytemuck::bytes_of(a), bytemuck::bytes_of(b))); Ok("()".into()) }
+                other => panic!("multi sub-op {other}"),
+            };
+            rs.push(match &one { Ok(x) => format!("ok {x}"), Err(e) => res_err(e) });
+        }
+        Ok(rs)
+    });
+    let after = h.arena.0[h.offset..h.offset + h.n].to_vec();
+    let after2 = h2.arena.0[h2.offset..h2.offset + h2.n].to_vec();
+    let s = match &r { None => "panic".to_string(), Some(Ok(rs)) => rs.join(";"), Some(Err(e)) => res_err(e) };
+    if h2.shadow.is_some() {
+        if r.is_none() { err = Some("a sequence of operations on one open view panicked".into()); }
+        else if after != after2 { err = Some("after several operations through one open view the bytes differ from those of the same operations one by one (the list a vector would hold)".into()); }
+        else if let Some(Ok(rs)) = &r { if rs.iter().map(|x| x.split(" | ").next().unwrap()).ne(stepwise.iter().map(|x| x.split(" | ").next().unwrap())) { err = Some("operations through one open view return different results than one by one".into()); } }
+    }
+    h.shadow = h2.shadow.clone();
+    h.cap = h2.cap;
+    (format!("multi {} buf={}", s, hex(&after)), err)
+}
+
 fn size_of_case<T: Pod, L: spl_list_view::PodLength>(n: usize) -> (String, Option<String>) {
     let r = guarded(|| ListView::<T, L>::size_of(n));
     let mut err = None;
@@ -333,7 +379,7 @@ pub fn run(prop: &str, cases: &[String]) -> RunOut {
             "O" => {
                 let h = hist.as_mut().expect("O outside a history");
                 let (tt, ll) = (h.t.clone(), h.l.clone());
-                let r = dispatch!(tt.as_str(), ll.as_str(), hist_op, h, &t[1..]);
+                let r = if t[1] == "multi" { dispatch!(tt.as_str(), ll.as_str(), hist_multi, h, &t[1..]) } else { dispatch!(tt.as_str(), ll.as_str(), hist_op, h, &t[1..]) };
                 if r.0.starts_with("ok") { hist_ok += 1 } else { hist_fail += 1 }
                 hist_text.push_str(line);
                 out.stats.bump(&format!("op:{}:{}", t[1], r.0.split(' ').next().unwrap()));
@@ -419,6 +465,20 @@ pub fn generate_c09(tier: &str, rng: &mut Rng) -> Vec<String> {
                 9 => v.push("O reopen".into()),
                 10 => v.push("O used".into()),
                 _ => v.push("O alloc".into()),
+            }
+        }
+        // one history in three keeps its view open across runs of 2-4 consecutive push / remove / sort operations
+        if rng.chance(1, 3) {
+            let start = v.iter().rposition(|l| l == "O init").unwrap() + 1;
+            let ops: Vec<String> = v.drain(start..).collect();
+            let is_m = |l: &String| ["O push ", "O remove ", "O sort "].iter().any(|p| l.starts_with(p));
+            let mut i = 0;
+            while i < ops.len() {
+                let mut j = i;
+                let want = rng.range(2, 4) as usize;
+                while j < ops.len() && is_m(&ops[j]) && j - i < want { j += 1; }
+                if j - i >= 2 { v.push(format!("O multi {}", ops[i..j].iter().map(|l| l[2..].to_string()).collect::<Vec<_>>().join(" / "))); i = j; }
+                else { v.push(ops[i].clone()); i += 1; }
             }
         }
         v.push("O reopen".into());
